@@ -6,6 +6,7 @@ package main
 import (
 	"fmt"
 	"go/types"
+	"sort"
 	"strings"
 
 	"golang.org/x/tools/go/ssa"
@@ -165,7 +166,16 @@ func (ex *Exec) callFunc(s *State, instr ssa.Instruction, f *ssa.Function, bindi
 		return ex.applyContract(s, instr, f, con, res, args, stay)
 	}
 	// 3. inline: marked functions, synthetic wrappers/thunks/bound methods
-	if (ex.g.contracts[key] != nil && ex.g.contracts[key].Inline) || ex.g.inlineSet[key] || f.Synthetic != "" && isRepoWrapper(f) {
+	marked := (ex.g.contracts[key] != nil && ex.g.contracts[key].Inline) || ex.g.inlineSet[key] || f.Synthetic != "" && isRepoWrapper(f)
+	if !marked && ex.g.contracts[key] == nil && isRepoFn(f) && autoInlinable(s, f) {
+		// A small loop-free helper of the repository without a contract (for
+		// instance one a refactoring has just extracted) is verified inside
+		// its caller, like a function marked `inline`: the caller's
+		// obligations then speak about the helper's real body.
+		marked = true
+		ex.usedAssume["auto-inlined (loop-free repository function without contract, verified inside its callers): "+key] = true
+	}
+	if marked {
 		if len(f.Blocks) == 0 {
 			ex.fail("inline: no body for %s", key)
 		}
@@ -190,6 +200,36 @@ func (ex *Exec) callFunc(s *State, instr ssa.Instruction, f *ssa.Function, bindi
 	}
 	ex.fail("call to %s which has no contract and is not marked inline (at %s)", key, ex.pos(instr.Pos()))
 	return nil
+}
+
+// autoInlinable: has a body, no loop, is not already being inlined
+// (recursion) and is small.
+func autoInlinable(s *State, f *ssa.Function) bool {
+	if !loopFreeSmall(f) {
+		return false
+	}
+	for _, fr := range s.Stack {
+		if fr.Fn == f {
+			return false
+		}
+	}
+	return true
+}
+
+func loopFreeSmall(f *ssa.Function) bool {
+	if len(f.Blocks) == 0 || len(f.Blocks) > 40 {
+		return false
+	}
+	n := 0
+	for _, b := range f.Blocks {
+		n += len(b.Instrs)
+		for _, succ := range b.Succs {
+			if succ.Dominates(b) {
+				return false // back edge: a loop needs an invariant, hence a contract
+			}
+		}
+	}
+	return n <= 250
 }
 
 func isRepoWrapper(f *ssa.Function) bool {
@@ -362,9 +402,46 @@ func (ex *Exec) setChanClosed(s *State, ch Term) {
 	s.heapSet("|Chan:closed|", Store(arr, ch, TTrue))
 }
 
+// yield: a blocking point of the function under verification. While the call
+// blocks, other steps (receive loop, timer callbacks, other API calls) run:
+// everything on the heap may have changed. What is known afterwards are the
+// function's `rely` clauses (old() = the state just before blocking), which
+// are assumptions about those other steps (A-RELY), not proved here.
+func (ex *Exec) yield(s *State) {
+	if ex.con == nil || len(ex.con.Rely) == 0 || !s.top().IsRoot {
+		return
+	}
+	if ex.dry {
+		ex.dryYield = true
+	}
+	snap := make(map[string]Term, len(s.Heap))
+	var names []string
+	for k, v := range s.Heap {
+		snap[k] = v
+		names = append(names, k)
+	}
+	sort.Strings(names)
+	for _, n := range names {
+		s.heapSet(n, s.declare(ex.g.fresh("yv"), s.Heap[n].Sort))
+	}
+	s.Epoch++
+	s.Alloc += 1 << 20 // objects other steps allocated meanwhile
+	env := ex.rootEnv(s, nil)
+	env.oldHeap = snap
+	env.oldNil = false
+	for _, r := range ex.con.Rely {
+		if ex.mentionsUnboundSiteLet(s, r.Expr) {
+			continue // about a value this path has not created yet
+		}
+		s.assume(ex.evalBool(env, r.Expr))
+	}
+	ex.usedAssume["A-RELY: while "+ex.key+" blocks, other steps of the same client or session run; afterwards only its rely clauses are assumed (they restate what every step's contract preserves: the invariant, append-only traces, completed exchanges stay completed)"] = true
+}
+
 func (ex *Exec) doRecv(s *State, in *ssa.UnOp) Val {
 	// blocking receive: continues only when the channel is closed
 	// (signal-only channels) -- value is zero
+	ex.yield(s)
 	ch := ex.scalar(s, in.X)
 	s.assume(ex.chanClosed(s, ch))
 	ex.usedAssume["A-SIGNALCHAN: channels are signal-only (close/receive); a blocking receive continues only on a closed channel"] = true
@@ -380,6 +457,9 @@ func (ex *Exec) doSelect(s *State, in *ssa.Select) Val {
 	// Only the shape `select { case <-ch: ...; default: ... }` and blocking
 	// multi-receive are supported: index = fresh; case i chosen only if
 	// chan i is closed; default (-1) only if non-blocking and none closed.
+	if in.Blocking {
+		ex.yield(s)
+	}
 	idx := s.declare(ex.g.fresh("sel"), SBV(64))
 	var conds []Term
 	var anyClosed []Term
